@@ -22,6 +22,8 @@ def build(de, span, dt, method, dense):
 def main():
     req = json.loads(sys.stdin.read())
     import desolver as de
+    from monitor import watchdog
+    watchdog.install(de)
     failures = {}
     cases = 0
 
